@@ -119,6 +119,10 @@ func (p *parser) parseMessage() (ok bool) {
 
 	case sTypeSelectReq, sTypeSelectRsp, sTypeDeselectReq, sTypeDeselectRsp,
 		sTypeLinktestReq, sTypeLinktestRsp, sTypeRejectReq, sTypeSeparateReq:
+		if p.pos != len(p.input) {
+			// a control message is its header; bytes after it would be dropped
+			return false
+		}
 		p.msg = ast.NewHSMSControlMessage(headerBytes)
 		return true
 
